@@ -305,7 +305,8 @@ def m3c(ctx):
         badad = sorted({x[1] for c in sinks for a_ in c.args for x in role_walk(b.role_of_operand(a_)) if isinstance(x, tuple) and x[0] == "call" and x[1] in BAD_ADAPTORS})
         ctx.check(bool(sinks) and not badad, "product-loop-exhaustive", "every tuple of the product yields a variant (the product is consumed whole by %s)" % sorted({c.callee.name for c in sinks}),
                   "the cartesian product is not consumed whole (%s)" % (badad or "no loop / extend / collect over it"), where_of(b))
-    emits = [c for c in b.calls if c.callee and c.callee.name in ("push", "extend") and not b.blocks[c.bb]["cleanup"]]
+    emits = [c for c in b.calls if c.callee and c.callee.name in ("push", "extend", "into_vec") and not b.blocks[c.bb]["cleanup"]]      # (`return vec![x]` is an emit, too)
+    emits += [c for c in b.calls if c.callee and c.callee.name == "collect" and not b.blocks[c.bb]["cleanup"] and c.args and role_mentions_call(b.role_of_operand(c.args[0]), "cartesian")]
     shortcut = lambda t, cond: C.is_forall_role(crate, cond[1], "is_trivial", over=("ids", "applied_id_occurrences"))
     seen_shortcut = False
     for i, c in enumerate(emits):
